@@ -246,7 +246,7 @@ def run_cases(run: Run, cases, stream, lean_ok=True):
 
 
 def check(run: Run, lean: dict) -> int:
-    n = 1200 if run.tier == "quick" else 30000
+    n = run.budget(1200, 30000)
     run.extra["rule"] = (
         "generated documents (text with leading/trailing/inner/only whitespace at first/middle/last/only positions next to "
         "elements, comments, PIs; nested xml:space preserve/default/invalid; 10% with exotic Unicode whitespace) parsed from "
